@@ -11,7 +11,10 @@ Scanners layered over cursors (Cursor/Scanner.v, harness c14_scan.go, I lines): 
 IterateValidIds (uniqueIndexScanner reading one element ahead, ValidIdsCursors on top for extended stores) of root, child and
 extended child stores with constant and selective filters, every Next/Seek program of the other families plus seeks from every
 position (last element, exhausted) on stores of 0..5 entities; paged filters (Next only: the page); QueryWithCursorC over
-bolt / typed / filtered / tree providers in both directions."""
+bolt / typed / filtered / tree providers in both directions.
+Several cursors alive at once (Cursor/Product.v, harness c14_multi.go, M lines): families of 2-3 cursors in one transaction (the
+same set symbol on different / the same rows; every pair of cursor families over the same / different buckets), each with its own
+Next/Seek program, interleaved in every bounded merge order, all cursors re-observed after every turn: non-interference."""
 import json
 import os
 import subprocess
@@ -286,8 +289,12 @@ def multi_deviation(pc, impl_t, spec_t, j):
     return 0, "?", "?"
 
 
-def classify(pc, impl_t, spec_t):
-    """stable signature of the class of failure"""
+# M lines: which single-cursor case kinds tell that a cursor kind is defective ALONE
+SOLO_KINDS = {"gs-tags": ("setsym", "rs-tags"), "gs-grps": ("rs-grps", "links"), "setsymraw": ("setsymraw", "rs-tagsraw")}
+
+
+def classify(pc, impl_t, spec_t, solo_bad=()):
+    """stable signature of the class of failure; solo_bad: case kinds with violations in single-cursor cases of this run"""
     j = next((k for k in range(min(len(impl_t), len(spec_t))) if impl_t[k] != spec_t[k]), min(len(impl_t), len(spec_t)))
     ti = impl_t[j] if j < len(impl_t) else "?"
     ts = spec_t[j] if j < len(spec_t) else "?"
@@ -302,8 +309,11 @@ def classify(pc, impl_t, spec_t):
         others = any(x != i for x in pc["sched"][:j + 1])
         if ti == "P":
             return "C14:%s-%s" % (cu["kind"], "interference-panic" if others else "panic"), j
-        if others:
-            # another cursor of the family has been opened / moved: this cursor no longer shows what it shows alone
+        turn = pc["sched"][j] if j < len(pc["sched"]) else -1
+        alone_bad = any(k in solo_bad for k in SOLO_KINDS.get(cu["kind"], (cu["kind"],)))
+        if others and (turn != i or not alone_bad):
+            # moved by the turn of another cursor, or its own operation went wrong although this kind of cursor is right whenever
+            # it runs alone (single-cursor cases of this run): it no longer shows what it shows alone
             return "C14:%s-interference" % cu["kind"], j
         own = cu["ops"][:max(0, pc["sched"][:j + 1].count(i) - 1)]
         return "C14:%s-%s" % (cu["kind"], "seek" if any(o != "N" for o in own) else "enumerate"), j
@@ -353,11 +363,11 @@ def main(argv):
     c = vlib.Check(PID, argv)
     c.cov["trusted_base"] = [
         "Coq 8.16.1 kernel (coqc; coqchk in the thorough tier); vm_compute in Examples only; no axioms",
-        "hand-written models Cursor/{BoltCursor,Typed,Filtered,Union,Tree,SetSym,Cases,Reuse,Scanner}.v of boltz/query_bolt_cursors.go, ast/cursors.go, boltz/query_scanners.go (uniqueIndexScanner), boltz/store_query.go (IterateIds, IterateValidIds, ValidIdsCursors) and the hand-out sites",
+        "hand-written models Cursor/{BoltCursor,Typed,Filtered,Union,Tree,SetSym,Cases,Reuse,Scanner,Product}.v of boltz/query_bolt_cursors.go, ast/cursors.go, boltz/query_scanners.go (uniqueIndexScanner), boltz/store_query.go (IterateIds, IterateValidIds, ValidIdsCursors) and the hand-out sites",
         "Cursor/BoltCursor.v as a description of bbolt 1.4.0 cursors (compared with real bbolt on every run: case kind B)",
         "llrb.Tree as an ordered set (replace on equal, in-order Left/Right links); its balancing is not modelled",
         "extraction (ExtrOcamlBasic only) + extraction/c14_driver.ml + drv_common.ml",
-        "Go harness cmd/storageharness/c14.go, c14_reuse.go, c14_scan.go (stores, generators) and this comparison / oracle",
+        "Go harness cmd/storageharness/c14.go, c14_reuse.go, c14_scan.go, c14_multi.go (stores, generators) and this comparison / oracle",
         "filters of the scanner cases: the set of ids a filter accepts is what the harness wrote (role r<mask> on the ids of mask); evaluation of filters is C01's subject",
         "uniqueIndexScanner.targetLimit = math.MaxInt64 (no limit) is modelled as 'never reached'; a paged scanner cursor that is SOUGHT is compared with the model only (design/C14.md section 9)",
         "composite set symbols (stackedCursor): no C14 model, implementation compared with the specification (concatenation computed by the harness) only",
@@ -403,6 +413,8 @@ def main(argv):
     n_cases = 0
     nontrivial = set()
     prop_viol = []       # (sortkey, key, case, impl, model, spec, j)
+    multi_viol = []      # M lines that violate: (parsed case, case, impl, model, spec)
+    solo_bad = set()     # case kinds with a violation in a single-cursor case
     corr = []            # model != impl although impl == spec, or model != spec
     bolt_bad = []
     paged_bad = []
@@ -443,8 +455,11 @@ def main(argv):
                 per_kind[pc["kind"]] = per_kind.get(pc["kind"], 0)
                 if oracle(pc) != sp_t:
                     spec_bad.append((case, " ".join(oracle(pc)), sp))
-            if impl_t != sp_t:
+            if impl_t != sp_t and pc.get("head") == "M":
+                multi_viol.append((pc, case, impl, mo, sp))      # classified after the single-cursor cases are known
+            elif impl_t != sp_t:
                 key, j = classify(pc, impl_t, sp_t)
+                solo_bad.add(pc["kind"])
                 prop_viol.append(((pc["size"], len(pc["ops"]), j, len(case)), key, case, impl, mo, sp, j))
             elif mo_t != sp_t and mo != "-":
                 corr.append((case, impl, mo, sp))
@@ -454,6 +469,9 @@ def main(argv):
         for s in samples:
             vlib.log("REPLAY case=%s\n  impl =%s\n  model|spec=%s" % (s["case"], s["impl"], s["model"]))
 
+    for pc, case, impl, mo, sp in multi_viol:
+        key, j = classify(pc, impl.split(), sp.split(), solo_bad)
+        prop_viol.append(((pc["size"], len(pc["ops"]), j, len(case)), key, case, impl, mo, sp, j))
     # property violations: smallest input of every class first
     prop_viol.sort()
     seen = {}
@@ -553,6 +571,10 @@ def main(argv):
                      "true] / 2 (3) [selective, child stores] AND by the walks Next^k Seek t Next for every k = 0 .. |P|+1 and every target (a seek from every "
                      "position, the last element and exhaustion included); filters with skip/limit (11 pagings) Next-only against the page, with Seek against "
                      "the model only; QueryWithCursorC over the entities bucket cursor / set index value cursor / AllOf / AnyOf iterators, both directions, all pagings; "
+                     "SEVERAL CURSORS ALIVE AT ONCE (one read transaction, all cursors re-observed after every turn): two cursors of the same set symbol "
+                     "(GetSymbol / GetRuntimeSymbol of a string-list and a link-set field) on 7 (9) x 7 (9) rows incl. equal rows, no bucket, no entity x 5 (9) x 5 (9) "
+                     "programs x every merge order (Next-only programs; up to 5 operations thorough) or 4-8 characteristic merge orders; three cursors of one symbol on "
+                     "27 (64) row triples x every merge order; every ordered pair of the 30 cursor families over the same / different buckets with Next and Seek programs; "
                      "AllOf/AnyOf iterators over seeded random role assignments x all value lists of length <= 3; B: seeded random First/Last/Next/Prev/Seek "
                      "sequences on real bbolt buckets (all 32 subsets, one multi-page bucket, read-only and writable transactions). "
                      "Observed after the constructor and after every op: IsValid / Current. Non-trivial: the specification trace contains at least one valid "
